@@ -49,6 +49,8 @@ pub(crate) fn now_millis_str() -> String {
         .duration_since(SystemTime::UNIX_EPOCH)
         .unwrap_or_else(|_| std::time::Duration::from_secs(0))
         .as_millis();
+    #[cfg(feature = "verif")]
+    let system_ms = crate::wal::verif::clock_override().unwrap_or(system_ms);
 
     let mut observed = LAST_MILLIS.load(Ordering::Relaxed);
     loop {
